@@ -222,6 +222,6 @@ SUMMARIES = {
     'std::time::Duration::from_secs_f64': un_val('dur_from_secs_f64'),
     'std::time::SystemTime::elapsed': un_ref('systime_elapsed'),
     'std::time::Instant::elapsed': un_ref('instant_elapsed'),
-    'std::time::Instant::checked_sub': bin_val('instant_checked_sub'),
+    'std::time::Instant::checked_sub': lambda e, s, f, a, fn, site: T('instant_checked_sub', deref(e, s, a[0]), a[1]),
     'std::sync::atomic::Atomic::<u32>::into_inner': into_inner,
 }
